@@ -460,7 +460,7 @@ func check(id, tier string) int {
 	}
 	evPath := filepath.Join(verifDir, "evidence", id+".json")
 	if repoDir != "/repo" {
-		evPath = filepath.Join(runDir+".evidence.json")
+		evPath = filepath.Join(runDir + ".evidence.json")
 	}
 	if err := core.WriteJSON(evPath, ev); err != nil {
 		fatal("evidence: %v", err)
